@@ -67,13 +67,22 @@ impl Check for C09 {
         o.pay.max_len = o.pay.max_len.min(16385);
         let doc = gen::gen_doc(&mut rng, &spec, &o);
         let nv = rng.range(2, 5);
-        let variants = (0..nv).map(|_| (rng.next(), *rng.pick(&[30u64, 60, 100]), *rng.pick(&[0u64, 50, 100]), *rng.pick(&[0u64, 50, 100]), io::gen_wscript(&mut rng))).collect();
+        // raw elements go through write(RawTag) in every presentation of a case, or through write_raw in every one: that
+        // the two calls write the same bytes is not among the equivalences C09 states (C01 round-trips both)
+        let raw_call = *rng.pick(&[0u64, 100]);
+        let variants = (0..nv).map(|_| (rng.next(), *rng.pick(&[30u64, 60, 100]), *rng.pick(&[0u64, 50, 100]), raw_call, io::gen_wscript(&mut rng))).collect();
         Case { spec, doc, variants }
     }
 
     fn exec(&self, c: &Case, st: &mut Stats) -> Result<ExecOk, Fail> {
-        // reference presentation: Start / children / End, option-based unknown size, write(RawTag), whole writes
-        let ops0 = ops_for(&c.doc, 1, 0, 0, 0);
+        // reference presentation: Start / children / End, option-based unknown size, whole writes; raw elements through the
+        // call this case uses throughout
+        let raw_call = c.variants.first().map_or(0, |v| v.3);
+        if c.variants.iter().any(|v| v.3 != raw_call) || (raw_call != 0 && raw_call != 100) {
+            st.inc("out_of_scope");
+            return Ok(ExecOk { nontrivial: false });
+        }
+        let ops0 = ops_for(&c.doc, 1, 0, 0, raw_call);
         let w0 = run_writer(&c.spec, &ops0, &WScript::default(), true);
         st.add("writer_calls", ops0.len() as u64 + 1);
         if let Some(p) = &w0.panic {
@@ -120,12 +129,31 @@ impl Check for C09 {
         }
         // size-field widths are honoured exactly; options touch size fields only
         let items: Vec<TagV> = wcases::written_tags(&ops0);
+        // Whether the writer's output decodes to the written tags at all is C01's subject. Here the question is what the
+        // options do: the same document without any width/unknown option is the yardstick, and when even that one does not
+        // decode the case is left to C01 (counted).
+        let mut plain = c.doc.clone();
+        for n in plain.iter_mut() {
+            n.visit_mut(&mut |x| x.enc = enc::Enc::default());
+        }
+        let ops_p = ops_for(&plain, 1, 0, 0, raw_call);
+        let wp = run_writer(&c.spec, &ops_p, &WScript::default(), true);
+        if !accepted(&wp) {
+            fail!("options-change-acceptance", "with options the calls are accepted, without them not\n calls: {}", describe(&ops_p));
+        }
+        let wkp = match walk(&c.spec, &wp.out, &items, 0) {
+            Ok((x, e)) if e == wp.out.len() => x,
+            _ => {
+                st.inc("plain_output_not_decodable_left_to_C01");
+                return Ok(ExecOk { nontrivial: false });
+            }
+        };
         let (wk, end) = match walk(&c.spec, &w0.out, &items, 0) {
             Ok(x) => x,
-            Err(e) => fail!("output-not-decodable", "the output does not decode to the written tags: item {}: {}\n calls: {}", e.item, e.what, describe(&ops0)),
+            Err(e) => fail!("output-not-decodable", "without size options the output decodes to the written tags, with them it does not: item {}: {}\n calls: {}", e.item, e.what, describe(&ops0)),
         };
         if end != w0.out.len() {
-            fail!("output-not-decodable", "{} trailing bytes after the last written tag", w0.out.len() - end);
+            fail!("output-not-decodable", "without size options the output decodes to the written tags, with them {} bytes trail the last tag", w0.out.len() - end);
         }
         // the nodes in document order line up with the non-End walked items
         fn collect<'a>(s: &'a [Node], out: &mut Vec<&'a Node>) {
@@ -166,20 +194,7 @@ impl Check for C09 {
                 }
             }
         }
-        // same document without any width/unknown option: ids and payload bytes identical, in order
-        let mut plain = c.doc.clone();
-        for n in plain.iter_mut() {
-            n.visit_mut(&mut |x| x.enc = enc::Enc::default());
-        }
-        let ops_p = ops_for(&plain, 1, 0, 0, 0);
-        let wp = run_writer(&c.spec, &ops_p, &WScript::default(), true);
-        if !accepted(&wp) {
-            fail!("options-change-acceptance", "with options the calls are accepted, without them not\n calls: {}", describe(&ops_p));
-        }
-        let (wkp, _) = match walk(&c.spec, &wp.out, &items, 0) {
-            Ok(x) => x,
-            Err(e) => fail!("options-change-content", "without options the output no longer decodes to the same tags: item {}: {}", e.item, e.what),
-        };
+        // ids and payload bytes identical with and without options, in order
         for (a, b) in wk.iter().zip(wkp.iter()) {
             if a.tag.is_end() || a.tag.is_start() {
                 continue;
@@ -245,7 +260,7 @@ impl Check for C09 {
     }
 
     fn rule(&self) -> &'static str {
-        "One case = specification + tag tree with per-element size options (width 1-8 / unknown size) written 3-6 times: the reference presentation (Start/children/End, option-based unknown size, whole writes) and 2-5 drawn presentations (subtrees collapsed into Full incl. nested Full, deprecated write_unknown_size, write_raw) each through its own short-writing sink. Outputs must be byte-identical; in the output every explicit width is the size field's exact length, unknown size is the reserved value, and removing all options changes size fields only (ids and payload bytes compared). Non-trivial: at least one presentation used a Full item. Distinct: FNV-1a fingerprint of the encoded tree + presentation seeds + specification."
+        "One case = specification + tag tree with per-element size options (width 1-8 / unknown size) written 3-6 times: the reference presentation (Start/children/End, option-based unknown size, whole writes) and 2-5 drawn presentations (subtrees collapsed into Full incl. nested Full, deprecated write_unknown_size) each through its own short-writing sink; raw elements go through write(RawTag) in all presentations of a case or through write_raw in all of them. Outputs must be byte-identical; in the output every explicit width is the size field's exact length, unknown size is the reserved value, and removing all options changes size fields only (ids and payload bytes compared). Non-trivial: at least one presentation used a Full item. Distinct: FNV-1a fingerprint of the encoded tree + presentation seeds + specification."
     }
     fn assumptions(&self) -> Vec<&'static str> {
         vec!["sink errors are not injected: the property speaks of partial writes only", "element positions in the output are found by the reference walker (refdec.rs), not by the iterator under test"]
